@@ -4,6 +4,7 @@ import Ark.Props.C05Cache
 import Ark.Proofs.GenBridge.BookArchetype
 import Ark.Props.C05Hist
 import Ark.Proofs.GenBridge.BookCache
+import Ark.Props.C05Rel
 
 namespace Ark.Props.C05
 open Ark
@@ -144,5 +145,57 @@ theorem src_cache_unregister : type_of% @Ark.GenBridge.Book.cache_unregister_eq 
 
 /-- `cache.Reset` as in the source = the model's -/
 theorem src_cache_reset : type_of% @Ark.GenBridge.Book.cache_reset_eq := @Ark.GenBridge.Book.cache_reset_eq
+
+
+/-! ### With relation tables, along histories (Props/C05Rel): the relation machine extended by CopyEntity, Shrink, filter definition / Register / Unregister and queries -/
+
+/-- table creation (fresh or RECYCLED slot) keeps the cache invariant: the new table enters exactly the entries whose filter matches and whose fixed relations it satisfies -/
+theorem relhist_createTable_keeps_cache : type_of% @Ark.Props.C05Rel.createTable_keeps_cache := @Ark.Props.C05Rel.createTable_keeps_cache
+
+/-- freeing a table in the target clean-up (FreeTable, isFree, cache.removeTable) keeps it -/
+theorem relhist_freeTable_keeps_cache : type_of% @Ark.Props.C05Rel.freeTable_keeps_cache := @Ark.Props.C05Rel.freeTable_keeps_cache
+
+/-- RemoveEntity, also of a relation target (tables freed, zero-target tables found or created, children moved), keeps it -/
+theorem relhist_removeEntity_keeps_cache : type_of% @Ark.Props.C05Rel.removeEntity_keeps_cache := @Ark.Props.C05Rel.removeEntity_keeps_cache
+
+/-- NewEntity with relation targets keeps it -/
+theorem relhist_newEntity_keeps_cache : type_of% @Ark.Props.C05Rel.newEntity_keeps_cache := @Ark.Props.C05Rel.newEntity_keeps_cache
+
+/-- SetRelations keeps it -/
+theorem relhist_setRelations_keeps_cache : type_of% @Ark.Props.C05Rel.setRelations_keeps_cache := @Ark.Props.C05Rel.setRelations_keeps_cache
+
+/-- every accepted operation of the relation machine keeps the cache, the filter heap, the component index and the lock pool -/
+theorem relhist_base_keeps : type_of% @Ark.Props.C05Rel.base_keeps := @Ark.Props.C05Rel.base_keeps
+
+/-- FilterN.Register in a world with relation tables -/
+theorem relhist_register_keeps : type_of% @Ark.Props.C05Rel.register_keeps := @Ark.Props.C05Rel.register_keeps
+
+/-- FilterN.Unregister -/
+theorem relhist_unregister_keeps : type_of% @Ark.Props.C05Rel.unregister_keeps := @Ark.Props.C05Rel.unregister_keeps
+
+/-- one step of the extended machine keeps the joint invariant (every operation but Reset) -/
+theorem relhist_step2_keeps : type_of% @Ark.Props.C05Rel.step2_keeps := @Ark.Props.C05Rel.step2_keeps
+
+/-- the joint invariant holds after every Reset-free history -/
+theorem relhist_reach2_invariant : type_of% @Ark.Props.C05Rel.reach2_invariant := @Ark.Props.C05Rel.reach2_invariant
+
+/-- the cache invariant holds after every Reset-free history with relation tables -/
+theorem relhist_reach2_cache_invariant : type_of% @Ark.Props.C05Rel.reach2_cache_invariant := @Ark.Props.C05Rel.reach2_cache_invariant
+
+/-- Shrink as a step: empty relation tables are freed and leave the cache -/
+theorem relhist_shrink_keeps : type_of% @Ark.Props.C05Rel.shrink_keeps := @Ark.Props.C05Rel.shrink_keeps
+
+/-- **C05 with relations, at every reachable state**: for a filter object registered under fixed relations and any admissible per-call relations, the cache entry is found, lists without duplicates exactly the tables the uncached lookup selects, the cached and the uncached complete iteration both succeed, leave the same world and visit the same entities -/
+theorem relhist_cached_agrees : type_of% @Ark.Props.C05Rel.cached_agrees := @Ark.Props.C05Rel.cached_agrees
+
+/-- the same at any state satisfying the invariant -/
+theorem relhist_cached_agrees_at : type_of% @Ark.Props.C05Rel.cached_agrees_at := @Ark.Props.C05Rel.cached_agrees_at
+
+/-- PARTIAL — Reset as a step: succeeds, empties the cache and unregisters every filter object, all invariants hold again except the pool link `stale = []` of the relation development (see reset_breaks_invariant) -/
+theorem relhist_reset_step_partial : type_of% @Ark.Props.C05Rel.reset_step_partial := @Ark.Props.C05Rel.reset_step_partial
+
+/-- why the relation machine's histories are Reset-free: after `new; reset` the model pool keeps the invalidated handle behind the slice, which the invariant TInv of the relation development excludes (a limit of that invariant, not of the code: Reset over histories is C16Hist's subject) -/
+theorem relhist_reset_breaks_invariant : type_of% @Ark.Props.C05Rel.reset_breaks_invariant := @Ark.Props.C05Rel.reset_breaks_invariant
+
 
 end Ark.Props.C05
